@@ -146,3 +146,41 @@ func Harness_C11_EscapedLead() {
 	verifrt.Assert(verifrt.JSONEqual(res["publicKey"], doc["publicKey"]), "a validated ietf-json-patch leaves the public keys unchanged")
 	verifrt.Assert(verifrt.JSONEqual(res["service"], doc["service"]), "a validated ietf-json-patch leaves the services unchanged")
 }
+
+// Harness_C11_AfterFirstOp: an operation of any kind that applies (a succeeding test, add, replace, copy, move,
+// remove of an ordinary member) followed by an operation of any kind that names a protected member on its path or
+// from side: every operation of the list is validated, whatever precedes it.
+func Harness_C11_AfterFirstOp() {
+	verifrt.IgnorePanics()
+	first := []map[string]interface{}{
+		{"op": "add", "path": "/harmless", "value": "v"},
+		{"op": "test", "path": "/x/y", "value": "v"},
+		{"op": "replace", "path": "/x/y", "value": "w"},
+		{"op": "copy", "from": "/x/y", "path": "/z"},
+		{"op": "move", "from": "/x/y", "path": "/z"},
+		{"op": "remove", "path": "/x/y"},
+	}[verifrt.Choose("first-op", 6)]
+	target := []string{"/service", "/publicKey", "/service/0", "/publicKey/0/type", "/service/0/serviceEndpoint"}[verifrt.Choose("target", 5)]
+	kinds := []string{"add", "remove", "replace", "test", "move", "copy"}
+	k := verifrt.Choose("kind", len(kinds))
+	second := map[string]interface{}{"op": kinds[k], "path": target, "value": "new"}
+	if k >= 4 {
+		if verifrt.Choose("side", 2) == 0 {
+			second["from"] = "/alsoKnownAs"
+		} else {
+			second["from"], second["path"] = target, "/fresh"
+		}
+	}
+	doc := c11Doc()
+	p := patch.Patch{patch.ActionKey: patch.JSONPatch, patch.PatchesKey: []interface{}{first, second}}
+	if patchvalidator.Validate(p) != nil {
+		verifrt.Reach("refused-by-validation")
+		return
+	}
+	res, err := New().ApplyPatches(doc, []patch.Patch{p})
+	if err != nil {
+		return
+	}
+	verifrt.Assert(verifrt.JSONEqual(res["publicKey"], doc["publicKey"]), "a validated ietf-json-patch leaves the public keys unchanged")
+	verifrt.Assert(verifrt.JSONEqual(res["service"], doc["service"]), "a validated ietf-json-patch leaves the services unchanged")
+}
